@@ -66,6 +66,10 @@ class CaselessDict(OrderedDict):
     def popitem(self):
         return super().popitem()
 
+    def move_to_end(self, key, last=True):
+        key = to_unicode(key)
+        super().move_to_end(key.upper(), last)
+
     def has_key(self, key):
         key = to_unicode(key)
         return super().__contains__(key.upper())
